@@ -16,7 +16,10 @@ SEL_POOL = [".k1", ".k2", ".id", ".g", ".", "^.g", ".items#0.k1", "(get . \"k1\"
 # sequences of selections in which one stage binds what another reads (a binding may not outlive the expression, let alone the record)
 COMBOS = [[":v", "(set \"v\" .id .k3)"], [":v", "(set \"v\" .id (get . \"nope\"))", ":v"], ["(default :v \"unset\")", "(set \"v\" (+ .id 100) (.get \"k2\"))"],
           ["(set \"a\" .id (set \"b\" 1 (+ :a :b)))", "."], ["(keys .)", "(stringify .)"], ["@twice", "(define \"twice\" 0 .k3)", "@twice"],
-          ["(| .k1 (default . 0) ^.id)", "(| . .id ^^.g)"], [".", "(values .)", "(entries .)"]]
+          ["(| .k1 (default . 0) ^.id)", "(| . .id ^^.g)"], [".", "(values .)", "(entries .)"],
+          # several patterns in one run (with a small cache they evict each other)
+          ["(match (default .g \"\") \"^a\")", "(match (default .g \"\") \"b$\")", "(match (default .g \"\") \"^$\")", "(match (stringify .k1) \"[0-9]\")"],
+          ["(match \"abc\" (concat \"^\" (default .g \"z\")))", "(extract_regex_group (default .g \"\") \"(a)(.*)\" 2)", "(match (default .g \"\") \"a\")"]]
 MACROS = ["--set=@up=(concat (stringify ^.id) \"-\" (stringify .n))", "--set=@par=^.g", "--set=@twice=(* (default .id 1) 2)"]
 FILTER_POOL = [".f", "(= .f true)", "(number? .k1)", "(match (default .g \"\") \"a\")", "(< (default .id 0) 20)", "(not (null? .))", "(object? .)"]
 SPLIT_POOL = [".items", ".", "(default .items [])", "(values .)", "(map .items (+ (.get \"n\") 1))"]
@@ -55,7 +58,9 @@ def gen(cs, rnd, n):
         if rnd.random() < 0.5 or any(":v" in a for a in argv):
             argv.append("--set=v=" + rnd.choice(["1", "\"x\"", "[1,2]"]))
         argv += MACROS
-        if rnd.random() < 0.6:
+        if any("match" in e for e in picks) and len(picks) >= 3:
+            argv.append("--regular-expression-cache-size=%d" % rnd.choice([1, 1, 2]))
+        elif rnd.random() < 0.6:
             argv.append("--regular-expression-cache-size=%d" % rnd.choice([0, 1, 2, 64]))
         if rnd.random() < 0.15:
             argv.append("--only-objects-and-arrays")
@@ -82,8 +87,8 @@ def gen(cs, rnd, n):
         elif mode == 2.0:
             # a long first part (whatever a stage or the reader accumulates per row - depth, counts, caches - may not reach the second part):
             # many empty and shallow containers, then rows that nest
-            A = [rnd.choice([("arr", []), ("obj", []), ("obj", [(PL.cps("items"), ("arr", [])), (PL.cps("g"), ("obj", [])), (PL.cps("k1"), ("arr", [("arr", [])]))]),
-                             ("arr", [("obj", []), ("arr", []), ("obj", [])]), ("num", "1"), ("str", [])]) for _ in range(rnd.choice([140, 180]))]
+            A = [rnd.choice([("arr", []), ("obj", []), ("arr", [("obj", []), ("arr", []), ("obj", [])]), ("obj", [(PL.cps("g"), ("obj", []))]), ("num", "1"), ("str", [])])
+                 for _ in range(rnd.choice([140, 180]))]
             B = B + [PL.parse_ast('{"id": 100, "k1": [[1, 2], [3]], "items": [{"n": 1, "k1": {"a": {"b": [1]}}}]}'), PL.parse_ast('[[["x"]]]')]
         da, db = PL.input_bytes(A), PL.input_bytes(B)
         cs.add({"kind": "rel", "rel": "concat", "cfg": PL.mkcfg(), "input": [], "json": js and True,
@@ -107,6 +112,6 @@ def check(tier, seed, replay=None):
         quick = tier == "quick"
         PC.model_check(chk, ["uniq", "split"], 3 if quick else 4, ["Local"], workers=8 if quick else 12)
         gen(cs, rnd, 400 if quick else 10000)
-    per, recs = PC.run_and_validate(chk, jvh, cs, "c11", nproc=2 if tier == "quick" else 12)
+    per, recs = PC.run_and_validate(chk, jvh, cs, "c11", nproc=8 if tier == "quick" else 14)
     PC.summarize(chk, cs, per, lambda rc: len(rc["runs"][0]["argv"]) >= 1 and len(rc["runs"][1]["stdin"]) > 0 and len(rc["runs"][2]["stdin"]) > 0)
     return chk.finish()
